@@ -304,7 +304,7 @@ func c14Judge(b *c14Built, q c14Query, o c14Out) c14Verdict {
 		add("unknown-or-removed-generation")
 	}
 	// candW: total weight of the groups the library-version >= 2 choice considers (subnet list present)
-	totW, candW, zeroW, lead, one, bad := int64(0), int64(0), false, false, false, false
+	totW, candW, zeroW, lead, one, bad, mapped := int64(0), int64(0), false, false, false, false, false
 	for _, g := range groups {
 		totW += int64(g.Weight)
 		if !g.SubnetsNil {
@@ -323,6 +323,9 @@ func c14Judge(b *c14Built, q c14Query, o c14Out) c14Verdict {
 			if !c14ParseCIDR(s).OK {
 				bad = true
 			}
+			if c14MappedCIDR(s) {
+				mapped = true
+			}
 		}
 	}
 	if b.has[q.Gen] {
@@ -340,6 +343,9 @@ func c14Judge(b *c14Built, q c14Query, o c14Out) c14Verdict {
 		}
 		if bad {
 			add("unparsable-cidr-present")
+		}
+		if mapped {
+			add("mapped-cidr-present")
 		}
 	}
 
@@ -364,49 +370,51 @@ func c14Judge(b *c14Built, q c14Query, o c14Out) c14Verdict {
 	} else {
 		add("result:address")
 		v.Success = true
-		// 3. well-formed address of the requested family
-		want := 0
-		switch q.Fam {
-		case c14FamV4:
-			want = 4
-		case c14FamV6:
-			want = 16
-		}
-		// Go's other well-formed representation of an IPv4 address is the 16-byte IPv4-mapped form;
-		// where IPv4 is acceptable it is read as the 4-byte address it denotes.
-		if len(o.IP) == 16 && want != 16 {
-			if a, ok := netip.AddrFromSlice(o.IP); ok && a.Is4In6() {
-				u := a.Unmap().As4()
-				o.IP = u[:]
-				add("v4-mapped-result")
+		// 3. well-formed address of the requested family. 4 bytes are IPv4; 16 bytes are IPv6 and,
+		// when IPv4-mapped, also Go's long form of IPv4. A v6 request never accepts 4 bytes, a v4
+		// request never accepts an address that is not IPv4 under either form.
+		n := len(o.IP)
+		var reads []c14Reading
+		for _, r := range c14Readings(o.IP) {
+			if q.Fam == c14FamAny || q.Fam == r.fam {
+				reads = append(reads, r)
 			}
 		}
-		n := len(o.IP)
-		lenOK := (want != 0 && n == want) || (want == 0 && (n == 4 || n == 16))
+		if n == 16 && len(reads) > 0 && reads[0].fam == c14FamV4 {
+			add("v4-mapped-result")
+		}
 		// a malformed or misplaced result that becomes a member of a configured subnet once its
 		// stripped leading zero bytes are put back has one root cause
 		lz := func() bool {
 			for _, L := range []int{4, 16} {
-				if n >= L || (want != 0 && want != L) || (n > 0 && o.IP[0] == 0) {
-					continue
-				}
 				fam := c14FamV4
 				if L == 16 {
 					fam = c14FamV6
 				}
-				if in, _ := c14Contain(groups, append(make([]byte, L-n), o.IP...), fam); in {
+				if n >= L || (q.Fam != c14FamAny && q.Fam != fam) || (n > 0 && o.IP[0] == 0) {
+					continue
+				}
+				if in, _, _ := c14Contain(groups, append(make([]byte, L-n), o.IP...), fam); in {
 					return true
 				}
 			}
 			return false
 		}
-		wantTxt := map[int]string{0: "4 or 16", 4: "4", 16: "16"}[want]
-		if !lenOK {
+		if len(reads) == 0 {
+			wantTxt := map[string]string{c14FamAny: "4 or 16", c14FamV4: "4", c14FamV6: "16"}[q.Fam]
 			switch {
 			case lz():
 				v.Key = "addr-length:leading-zero-bytes-dropped"
 			case n == 4 || n == 16:
-				v.Key, v.Msg = "wrong-family", fmt.Sprintf("asked for %s, got %s", q.Fam, c14FmtIP(o.IP))
+				v.Key = "wrong-family"
+				// an IPv4 address handed out for an IPv6 request because an IPv4-mapped network passed
+				// as IPv6 somewhere and as IPv4 elsewhere
+				if n == 4 {
+					if in, _, via := c14Contain(groups, o.IP, c14FamV4); in && via {
+						v.Key = "wrong-family:mapped-network-selected-as-v4"
+					}
+				}
+				v.Msg = fmt.Sprintf("asked for %s, got the %d-byte address %s", q.Fam, n, c14FmtIP(o.IP))
 				return v
 			default:
 				v.Key = "addr-length:other"
@@ -414,8 +422,14 @@ func c14Judge(b *c14Built, q c14Query, o c14Out) c14Verdict {
 			v.Msg = fmt.Sprintf("selected address has %d bytes (%x); a well-formed %s address has %s bytes", n, []byte(o.IP), q.Fam, wantTxt)
 			return v
 		}
-		// 4. inside a configured subnet of that generation and family
-		in, randOK := c14Contain(groups, o.IP, q.Fam)
+		// 4. inside a configured subnet of that generation under a reading that matches the request
+		in, randOK := false, false
+		for _, r := range reads {
+			if i, ro, _ := c14Contain(groups, r.ip, r.fam); i {
+				in = true
+				randOK = randOK || ro
+			}
+		}
 		if !in {
 			if lz() {
 				v.Key, v.Msg = "addr-length:leading-zero-bytes-dropped", fmt.Sprintf("selected address %x is a member of a configured subnet with its leading zero bytes dropped", []byte(o.IP))
@@ -461,7 +475,7 @@ func c14Judge(b *c14Built, q c14Query, o c14Out) c14Verdict {
 		var sameIP *c14RefRes
 		for i := range ref.Alts {
 			a := &ref.Alts[i]
-			if a.Err || string(a.IP) != string(o.IP) {
+			if a.Err || !c14SameAddr(a.IP, o.IP) {
 				continue
 			}
 			if sameIP == nil || a.Rand == o.Rand {
@@ -661,6 +675,32 @@ func c14GenV6(rt *rapid.T, kind int) string {
 	return p.String()
 }
 
+// c14GenMapped draws a network written in IPv4-mapped IPv6 notation, ::ffff:a.b.c.d/n. n >= 96 is
+// the ambiguous case (an IPv4 network in IPv6 clothing); n < 96 is an ordinary IPv6 prefix that
+// covers the mapped range.
+func c14GenMapped(rt *rapid.T) string {
+	var a [16]byte
+	a[10], a[11] = 0xff, 0xff
+	copy(a[12:], c14Bytes(rt, 4, "m4addr"))
+	switch rapid.IntRange(0, 3).Draw(rt, "m4kind") {
+	case 0:
+		a[12], a[13], a[14] = 198, 51, 100
+	case 1:
+		a[12] = rapid.SampledFrom([]byte{10, 192, 203, 100}).Draw(rt, "m4first")
+	case 2:
+		a[12] = 0
+	}
+	bits := rapid.SampledFrom([]int{120, 128, 124, 96, 112, 127, 104, 126, 97, 95, 90, 64, -1}).Draw(rt, "m4bits")
+	if bits < 0 {
+		bits = rapid.IntRange(80, 128).Draw(rt, "m4bitsR")
+	}
+	p := netip.PrefixFrom(netip.AddrFrom16(a), bits)
+	if !c14Rarely(rt, 4, "hostbitsm") {
+		p = p.Masked()
+	}
+	return p.String()
+}
+
 // c14GenSubnet draws one CIDR; prev are the subnets drawn so far in this generation (for
 // duplicates and overlaps). wide: big subnets only (purity sub-check).
 func c14GenSubnet(rt *rapid.T, prev []string, pos int, wide bool) string {
@@ -678,9 +718,14 @@ func c14GenSubnet(rt *rapid.T, prev []string, pos int, wide bool) string {
 	}
 	// within a group families alternate by position more often than not, so that most groups can
 	// serve both families
-	k := rapid.SampledFrom([]string{"alt", "alt", "v4", "v6", "alt", "derived", "v4z", "v6z", "v4", "v6", "derived"}).Draw(rt, "skind")
+	k := rapid.SampledFrom([]string{"alt", "alt", "v4", "v6", "alt", "derived", "v4z", "mapped", "v6z", "v4", "v6", "derived", "mapped"}).Draw(rt, "skind")
 	if k == "alt" {
 		k = []string{"v4", "v6"}[pos%2]
+		// now and then the IPv6 slot of a group is taken by an IPv4-mapped network, so that groups
+		// whose only "IPv6" entry is a mapped one exist
+		if pos%2 == 1 && c14Rarely(rt, 6, "altmapped") {
+			k = "mapped"
+		}
 	}
 	if c14Rarely(rt, 40, "badcidr") {
 		k = "bad"
@@ -696,6 +741,8 @@ func c14GenSubnet(rt *rapid.T, prev []string, pos int, wide bool) string {
 		return c14GenV6(rt, rapid.SampledFrom([]int{3, 2}).Draw(rt, "k6z"))
 	case "bad":
 		return rapid.SampledFrom(c14BadCIDRs).Draw(rt, "bad")
+	case "mapped":
+		return c14GenMapped(rt)
 	}
 	if len(prev) == 0 {
 		return c14GenV4(rt, 1)
